@@ -225,16 +225,32 @@ func (env *TEnv) tr(e Expr) (TV, error) {
 	case *EQuant:
 		n := env
 		var decl []string
-		var guards []string
+		bound := map[string]bool{}
+		for _, b := range x.Vars {
+			bound[b.Name] = true
+		}
 		for _, b := range x.Vars {
 			ty, err := eng.evalType(env.pkg, b.Type)
 			if err != nil {
 				return TV{}, err
 			}
 			vn := "q!" + b.Name
-			n = n.with(b.Name, TV{vn, ty})
+			bind := vn
+			// A bound integer used to index a slice is re-based so that it occurs
+			// bare as the array index (array-property fragment: the solvers
+			// instantiate `select a q` with every index term, which they do not
+			// when the index is `off + i`).
+			if isIntType(ty) {
+				if se := findIndexedSlice(x.Body, b.Name, bound); se != nil {
+					if stv, err := env.tr(se); err == nil && stv.Ty != nil {
+						if _, isSl := stv.Ty.Underlying().(*types.Slice); isSl {
+							bind = S("-", vn, S("s-off", stv.T))
+						}
+					}
+				}
+			}
+			n = n.with(b.Name, TV{bind, ty})
 			decl = append(decl, fmt.Sprintf("(%s %s)", vn, eng.sortOf(ty)))
-			_ = guards
 		}
 		body, err := n.tr(x.Body)
 		if err != nil {
@@ -367,7 +383,7 @@ func (env *TEnv) index(a, i TV, h Heap) (TV, error) {
 	switch t := a.Ty.Underlying().(type) {
 	case *types.Slice:
 		k := vc.elemKey(t.Elem())
-		return TV{S("select", S("select", h.Get(k), S("s-arr", a.T)), S("+", S("s-off", a.T), i.T)), t.Elem()}, nil
+		return TV{S("select", S("select", h.Get(k), S("s-arr", a.T)), addOff(S("s-off", a.T), i.T)), t.Elem()}, nil
 	case *types.Map:
 		kv, _, _ := vc.mapKeys(t)
 		return TV{Ite(S("=", a.T, "0"), vc.eng.zero(t.Elem()), S("select", S("select", h.Get(kv), a.T), i.T)), t.Elem()}, nil
@@ -547,6 +563,33 @@ func (env *TEnv) trCall(x *ECall) (TV, error) {
 			return TV{}, err
 		}
 		return TV{And(S("<", "0", a.T), S("<=", a.T, env.allocOld)), tBool}, nil
+	case "back": // contents of the backing array of a slice, as a value
+		a, err := env.tr(x.Args[0])
+		if err != nil {
+			return TV{}, err
+		}
+		st, ok := a.Ty.Underlying().(*types.Slice)
+		if !ok {
+			return TV{}, fmt.Errorf("back of non-slice %s", a.Ty)
+		}
+		return TV{S("select", env.cur.Get(vc.elemKey(st.Elem())), S("s-arr", a.T)), types.NewArray(st.Elem(), 0)}, nil
+	case "upd": // upd(a, i, v): array a with element i replaced
+		if err := argN(3); err != nil {
+			return TV{}, err
+		}
+		a, err := env.tr(x.Args[0])
+		if err != nil {
+			return TV{}, err
+		}
+		i, err := env.tr(x.Args[1])
+		if err != nil {
+			return TV{}, err
+		}
+		v, err := env.tr(x.Args[2])
+		if err != nil {
+			return TV{}, err
+		}
+		return TV{S("store", a.T, i.T, v.T), a.Ty}, nil
 	case "arr": // backing array reference of a slice
 		a, err := env.tr(x.Args[0])
 		if err != nil {
@@ -651,7 +694,7 @@ func (vc *FuncVC) compileSpecFn(sf *SpecFn) (*specFnInfo, error) {
 	for i, p := range sf.Params {
 		decl = append(decl, fmt.Sprintf("(p!%s %s)", p.Name, eng.sortOf(info.paramTypes[i])))
 	}
-	if sf.Uninter {
+	if sf.Uninter || (sf.Opaque && !vc.revealed(sf.Name)) {
 		var ss []string
 		for _, t := range info.paramTypes {
 			ss = append(ss, eng.sortOf(t))
@@ -824,4 +867,143 @@ func (env *TEnv) modTargets(e Expr) ([]modTarget, error) {
 		}
 	}
 	return nil, fmt.Errorf("unsupported modifies target")
+}
+
+// addOff builds off + i, cancelling a re-based bound variable (- q off).
+func addOff(off, i string) string {
+	pre := "(- q!"
+	if strings.HasPrefix(i, pre) && strings.HasSuffix(i, " "+off+")") {
+		v := i[3 : len(i)-len(off)-2]
+		if !strings.ContainsAny(v, " ()") {
+			return v
+		}
+	}
+	for _, op := range []string{"+", "-"} {
+		if strings.HasPrefix(i, "("+op+" "+pre) {
+			rest := i[len(op)+2:]
+			// rest = "(- q!x off) c)"
+			m := "(- "
+			if strings.HasPrefix(rest, m) {
+				end := strings.Index(rest, " "+off+") ")
+				if end > 0 {
+					v := rest[3:end]
+					c := rest[end+len(off)+3 : len(rest)-1]
+					if !strings.ContainsAny(v, " ()") {
+						return S(op, v, c)
+					}
+				}
+			}
+		}
+	}
+	return S("+", off, i)
+}
+
+// findIndexedSlice returns the first slice-valued expression indexed by the
+// bound variable v (as v, v+c or v-c) that mentions no bound variable itself.
+func findIndexedSlice(e Expr, v string, bound map[string]bool) Expr {
+	var found Expr
+	mentions := func(e Expr) bool { return mentionsAny(e, bound) }
+	var walk func(e Expr)
+	isV := func(e Expr) bool {
+		switch x := e.(type) {
+		case *EIdent:
+			return x.Name == v
+		case *EBin:
+			if x.Op == "+" || x.Op == "-" {
+				if id, ok := x.X.(*EIdent); ok && id.Name == v {
+					return !mentionsAny(x.Y, map[string]bool{v: true})
+				}
+			}
+		}
+		return false
+	}
+	walk = func(e Expr) {
+		if found != nil || e == nil {
+			return
+		}
+		switch x := e.(type) {
+		case *EIndex:
+			if isV(x.I) && !mentions(x.X) {
+				found = x.X
+				return
+			}
+			walk(x.X)
+			walk(x.I)
+		case *EUn:
+			walk(x.X)
+		case *EBin:
+			walk(x.X)
+			walk(x.Y)
+		case *ECond:
+			walk(x.C)
+			walk(x.A)
+			walk(x.B)
+		case *ECall:
+			for _, a := range x.Args {
+				walk(a)
+			}
+		case *EField:
+			walk(x.X)
+		case *ESlice:
+			walk(x.X)
+			walk(x.Lo)
+			walk(x.Hi)
+		case *EQuant:
+			walk(x.Body)
+		case *ELet:
+			walk(x.V)
+			walk(x.Body)
+		}
+	}
+	walk(e)
+	return found
+}
+
+func mentionsAny(e Expr, names map[string]bool) bool {
+	if e == nil {
+		return false
+	}
+	switch x := e.(type) {
+	case *EIdent:
+		return names[x.Name]
+	case *EUn:
+		return mentionsAny(x.X, names)
+	case *EBin:
+		return mentionsAny(x.X, names) || mentionsAny(x.Y, names)
+	case *ECond:
+		return mentionsAny(x.C, names) || mentionsAny(x.A, names) || mentionsAny(x.B, names)
+	case *ECall:
+		for _, a := range x.Args {
+			if mentionsAny(a, names) {
+				return true
+			}
+		}
+	case *EField:
+		return mentionsAny(x.X, names)
+	case *EIndex:
+		return mentionsAny(x.X, names) || mentionsAny(x.I, names)
+	case *ESlice:
+		return mentionsAny(x.X, names) || mentionsAny(x.Lo, names) || mentionsAny(x.Hi, names)
+	case *EQuant:
+		return mentionsAny(x.Body, names)
+	case *ELet:
+		return mentionsAny(x.V, names) || mentionsAny(x.Body, names)
+	}
+	return false
+}
+
+func (vc *FuncVC) revealed(name string) bool {
+	if vc.spec != nil {
+		for _, r := range vc.spec.Reveal {
+			if r == name {
+				return true
+			}
+		}
+	}
+	for _, r := range vc.lemmaReveal {
+		if r == name {
+			return true
+		}
+	}
+	return false
 }
